@@ -95,6 +95,10 @@ type Controller struct {
 	// HealthCheck[i] (nil = no SubConn asks for health checking). Set it before
 	// the channel is created.
 	HealthCheck []bool
+	// Shut is optional: SubConn i is Shutdown() by the policy right after it
+	// was created (and never asked to connect) when Shut[i]. A picker answer
+	// may still return it: a SubConn in SHUTDOWN is one more non-READY SubConn.
+	Shut map[int]bool
 
 	mu     sync.Mutex
 	cc     balancer.ClientConn
@@ -300,7 +304,11 @@ func (b *planBalancer) UpdateClientConnState(balancer.ClientConnState) error {
 	c.mu.Lock()
 	c.cc, c.scs = b.cc, scs
 	c.mu.Unlock()
-	for _, sc := range scs {
+	for i, sc := range scs {
+		if c.Shut[i] {
+			sc.Shutdown()
+			continue
+		}
 		sc.Connect()
 	}
 	return nil
